@@ -9,7 +9,7 @@ vectors of the repository's tests by selftest()), plus the metamorphic
 from ctx.rng *before* the first library call, so the stream is identical in
 every configuration and after a crash-restart.
 """
-import os, re
+import os, random, re
 
 from .. import build
 from ..core import Harness
@@ -107,8 +107,9 @@ HASH_LENCLS = ("0", "1", "r-1", "r", "r+1", "2r-1", "2r", "2r+1", "rnd")
 
 
 def _hash_len(rng, cls, r):
-    return {"0": 0, "1": 1, "r-1": r - 1, "r": r, "r+1": r + 1, "2r-1": 2 * r - 1, "2r": 2 * r,
-            "2r+1": 2 * r + 1}.get(cls, None) if cls != "rnd" else rng.randrange(2, 3 * r + 9)
+    if cls == "rnd":
+        return rng.randrange(2, 3 * r + 9)
+    return {"0": 0, "1": 1, "r-1": r - 1, "r": r, "r+1": r + 1, "2r-1": 2 * r - 1, "2r": 2 * r, "2r+1": 2 * r + 1}[cls]
 
 
 def _hash_data(rng, n):
@@ -669,7 +670,6 @@ def unit_hotp(ctx):
             cases.append({"op": "HOTP", "api": "bad-digit", "digit": digit, "ctr": rb(rng, 8), "key": rb(rng, 32)})
             cases.append({"op": "TOTP", "api": "bad-digit", "digit": digit, "t": rng.getrandbits(40), "key": rb(rng, 32)})
         cases.append({"op": "TOTP", "api": "bad-time", "digit": 6, "t": TIME_ERR, "key": rb(rng, 32)})
-    import random
     for c in cases:
         op, api, digit, key = c["op"], c["api"], c["digit"], c["key"]
         cls = "%s:%s" % (op.lower(), api if api.startswith("bad") else ("ctr=" + c["ctrclass"] if op == "HOTP" else "t=" + c["tclass"]))
@@ -881,7 +881,6 @@ def unit_ocra(ctx):
             cases.append({"op": "OCRA", "api": "bad-time", "suite": s, "key": rb(rng, 32), "q": b"12345678"})
         for s in ("OCRA-1:HOTP-HBELT-6:QN08", "OCRA-1:HOTP-HBELT-4:QN08", "OCRA-1:HOTP-HBELT-9:QN08"):
             cases.append({"op": "OCRA", "api": "bad-otp-length", "suite": s, "key": rb(rng, 32), "q": b"12345678"})
-    import random
     keep = lib.botpOCRA_keep()
     feats = {}
 
@@ -1098,11 +1097,21 @@ REQUIRED = tuple(["bashF:" + k for k in ("zero", "ones", "beltH") + BASHF_KINDS]
                  ["ocra:bad-suite", "ocra:bad-qlen", "ocra:bad-time", "ocra:bad-otp-length"])
 
 
+BASH_PLATFORM_CFGS = ("bash32", "sse2", "avx2", "avx512")
+BASH_UNITS = ("c03:unit_bashf", "c03:unit_hash", "c03:unit_prg")
+
+
 def main(run):
     js = [dict(j, cfg="asan64") for j in jobs(run.tier)]
     if run.tier != "quick":
         js += [dict(j, cfg="rel64") for j in jobs(run.tier)]
         js += [dict(j, cfg="asan32") for j in jobs(run.tier, 0.25)]
+        # the platform variants of bash-f (bash_f32.c, bash_fsse2.c, bash_favx2.c, bash_favx512.c): bash units only
+        plat = {c: build.config_available(c) for c in BASH_PLATFORM_CFGS}
+        for c in BASH_PLATFORM_CFGS:
+            if plat[c]:
+                js += [dict(j, cfg=c) for j in jobs(run.tier, 0.25) if j["unit"] in BASH_UNITS]
+        run.coverage_extra["bash_platform_variants"] = {c: ("run" if ok else "skipped: CPU lacks the extension") for c, ok in plat.items()}
     run.run_jobs(js)
     return run.finish(
         rule="one case = one call sequence on fresh exact-size buffers: a bash-f state; a (level, message, chunking) triple; a whole "
@@ -1114,6 +1123,6 @@ def main(run):
             "bash-prg restart with a key: commit(KEY) with the old buffer length, then r changes (text of STB 34.101.77 8; no appendix vector covers it)",
             "OCRA challenge q is an opaque octet string zero-padded to 128 octets and t is the already rounded time stamp, as botp.h profiles RFC 6287",
             "OCRA suite grammar: RFC 6287 section 6 restricted by botp.h to HBELT and 4..9 digits; time step 0H and leading-zero steps are left undecided",
-            "the default BASH_PLATFORM (bash_f64.c) is the bashF under test; platform variants are compared by C19",
+            "quick tier exercises the default BASH_PLATFORM (bash_f64.c) only; thorough adds the platform variants the CPU supports",
         ],
         min_eval=1000, required_classes=REQUIRED)
